@@ -148,8 +148,8 @@ class Ctx:
         if any(isinstance(h, bool) and not h for h in hyps):
             return 'unsat', 'trivial', 0.0, None, ''
         neg = z3.Not(goal) if not isinstance(goal, bool) else z3.BoolVal(not goal)
-        lem = axioms.instantiate(list(hyps) + [neg] + list(extra_terms), level='basic' if algebra else 'all')
-        if algebra is True:
+        lem = axioms.instantiate(list(hyps) + [neg] + list(extra_terms), level='basic' if algebra in (True, 'basic') else 'all')
+        if algebra in (True, 'full'):
             allt, _ = axioms.abstract_ufs(list(hyps) + lem + [neg])
             hyps, lem, neg = allt[:len(hyps)], allt[len(hyps):-1], allt[-1]
         t = time.time()
